@@ -34,6 +34,10 @@ static const scen SC[] = {
 	{ "timed wait that must time out (block never submitted before)", 'S', 0, { "Ta", 0, 0 } },
 	{ "cancel lands during a timed wait that times out; then testcancel and submit", 'S', 0, { "Tta", "c", 0 } },
 	{ "cancel lands during a timed wait on a running block; testcancel afterwards", 'S', 0, { "aTt", "c", 0 } },
+	// a block object may be executed several times as long as nobody waits on it or observes it: only the first completion leaves its group
+	{ "the same block object called directly by two threads at once", 'S', 0, { "d", "d", 0 } },
+	{ "a direct call racing an async submission of the same block object", 'S', 0, { "a", "d", 0 } },
+	{ "the same block object submitted with dispatch_async by two threads (concurrent queue)", 'C', 0, { "a", "a", 0 } },
 };
 #define NSC ((int)(sizeof(SC) / sizeof(SC[0])))
 #define BODY 100
@@ -128,7 +132,11 @@ static int check(int v, const vx_log *l, char *msg, size_t len)
 		if (l->ev[i].kind == EV_SUBMIT_CALL && l->ev[i].arg != 'p' && submit_call < 0) submit_call = (int)i;
 		if (l->ev[i].kind == EV_SUBMIT_RET && submit_ret < 0 && submit_call >= 0) submit_ret = (int)i;
 	}
-	if (nstart > 1) FAILF(msg, len, "the block body ran %d times for one submission", nstart);
+	int submits = 0;
+	for (int t = 0; t < 3; t++) for (const char *q = sc->thr[t]; q && *q; q++) if (strchr("asgd", *q)) submits++;
+	int multi = submits > 1;
+	if (nstart > (submits ? submits : 1)) FAILF(msg, len, "the block body ran %d times for %d submission(s)", nstart, submits);
+	if (multi && cancel < 0 && (nstart != submits || ev_count(l, EV_END, BODY) != submits)) FAILF(msg, len, "the block object was executed %d times (started %d, finished %d)", submits, nstart, ev_count(l, EV_END, BODY));
 	if (bs >= 0 && be < 0) FAILF(msg, len, "the block body started but never finished (a running block must not be interrupted)");
 	if (cancel >= 0 && submit_call >= 0 && cancel < submit_call && bs >= 0)
 		FAILF(msg, len, "the block was cancelled (event #%d) before it was submitted (event #%d) but its body ran", cancel, submit_call);
@@ -159,7 +167,7 @@ static int check(int v, const vx_log *l, char *msg, size_t len)
 			int ps = ev_first(l, EV_START, PERF), pe = ev_first(l, EV_END, PERF);
 			if (ev_count(l, EV_START, PERF) != 1 || pe < 0 || pe > (int)i || ps > pe) FAILF(msg, len, "dispatch_block_perform did not run its block exactly once before returning");
 		}
-		if (e->kind == EV_SUBMIT_RET && (l->ev[ev_first(l, EV_SUBMIT_CALL, e->id)].arg == 's' || l->ev[ev_first(l, EV_SUBMIT_CALL, e->id)].arg == 'd')) {
+		if (!multi && e->kind == EV_SUBMIT_RET && (l->ev[ev_first(l, EV_SUBMIT_CALL, e->id)].arg == 's' || l->ev[ev_first(l, EV_SUBMIT_CALL, e->id)].arg == 'd')) {
 			if (bs >= 0 && be > (int)i) FAILF(msg, len, "synchronous execution of the block returned before the body finished");
 		}
 	}
